@@ -14,7 +14,11 @@ EXPLANATION = (
     "table's column list: the new view is the old view plus exactly the given row (fixed columns, ragged offsets "
     "and bytes), or on an error return every row, length and the representation invariant are unchanged; "
     "truncate(n) keeps exactly the first n rows or rejects n > len, clear empties, get_row returns row idx's "
-    "fields and slices or rejects exactly the out-of-range indexes, for each of those tables. The "
+    "fields and slices or rejects exactly the out-of-range indexes, for each of those tables. Node table bulk "
+    "operations: append_columns appends exactly the rows described by the column arrays (NULL population / "
+    "individual -> -1, NULL metadata -> empty rows) after rejecting missing mandatory columns and ill-formed "
+    "offsets, set_columns makes the table exactly those rows, extend appends the selected rows of another table "
+    "in order after checking every index (ghost cumulative-length function). The "
     "bounds/monotonicity axioms about the ghost functions rank/newoff and the transitive form of offset "
     "monotonicity are proved by induction (base and step discharged) in lemmas/induction.py. The remaining row "
     "operations of those tables, and the Python facade / immutability of TreeSequence, are covered only by the "
@@ -33,6 +37,8 @@ C_FUNCS = [
     ("tables.c", "subset_ragged_char_column"),
     ("tables.c", "check_offsets"),
     ("tables.c", "tsk_edge_table_has_metadata"),
+    ("tables.c", "tsk_node_table_append_columns"), ("tables.c", "tsk_node_table_set_columns"),
+    ("tables.c", "tsk_node_table_extend"),
 ] + [("tables.c", "tsk_%s_table_%s" % (t, f)) for (t, fs) in (
     ("edge", ["expand_main_columns", "expand_metadata", "add_row"]),
     ("site", ["expand_main_columns", "expand_ancestral_state", "expand_metadata", "add_row"]),
@@ -46,7 +52,7 @@ LEMMAS = ["lemmas.induction:offsets_transitive", "lemmas.induction:rank_bounds_a
           "lemmas.induction:newoff_bounds_and_monotone"]
 BOUNDED = [{"name": "list_model", "module": "standins.c13_listmodel", "timeout": 900}]
 UNVERIFIED = [              "edge tables created with TSK_TABLE_NO_METADATA (add_row contract covers the default variant)",
-              "tsk_*_table_update_row, _extend, _append_columns, _set_columns, _takeset_columns, _keep_rows, _copy",
+              "tsk_*_table_update_row, _takeset_columns, _keep_rows, _copy; _extend/_append_columns/_set_columns of the tables other than nodes",
               "python/tskit/tables.py facade", "TreeSequence immutability (numpy flags in _tskitmodule.c)"]
 ASSUMPTIONS = [
     "ghost functions rank/newoff: their defining recurrences plus bounds and monotonicity are given as axioms in "
